@@ -153,7 +153,7 @@ def check_image(ctx, data):
             continue
         for p, n in m.iter_ns(ns):
             if n.kind == 'file' and n.blob == 'cat':
-                rec = tree.entries.get(p)
+                rec = tree.entries.get(m.phys(ns, p))
                 if ns == 'joliet':
                     ctx.probes['catalog_name_joliet'] += 1
                 if rec is None:
